@@ -344,6 +344,35 @@ def pmap(fn: Callable, items: Sequence, procs: int = NCPU, chunk: int = 1) -> Li
                                  f'items did not finish within {PMAP_TIMEOUT} s')
 
 
+def run_optimized(module: str, func: str, jobs: Sequence, flags: Sequence[str] = ('-O',)) -> List:
+    """Runs harness function `module.func` on every job in a separate
+    interpreter started with `flags` (-O: assert statements are stripped, as
+    in a deployment with PYTHONOPTIMIZE) and returns the results: the library
+    must mean the same there."""
+    import pickle
+    import subprocess
+    inp, outp = tlc.fresh('optin'), tlc.fresh('optout')
+    inp.parent.mkdir(parents=True, exist_ok=True)
+    inp.write_bytes(pickle.dumps(list(jobs)))
+    code = ('import sys, pickle, importlib\n'
+            f'sys.path.insert(0, {str(VERIF)!r}); sys.path.insert(1, {str(VERIF / ".pydeps")!r})\n'
+            f'm = importlib.import_module({module!r}); f = getattr(m, {func!r})\n'
+            f'jobs = pickle.load(open({str(inp)!r}, "rb"))\n'
+            f'pickle.dump([f(j) for j in jobs], open({str(outp)!r}, "wb"))\n')
+    p = subprocess.run([sys.executable, *flags, '-c', code], env=dict(os.environ),
+                       stdout=subprocess.PIPE, stderr=subprocess.STDOUT, text=True, timeout=1800)
+    try:
+        if p.returncode != 0 or not outp.exists():
+            raise MachineryError(f'interpreter with {list(flags)} failed on {module}.{func}:\n{p.stdout[-1500:]}')
+        return pickle.loads(outp.read_bytes())
+    finally:
+        for f_ in (inp, outp):
+            try:
+                f_.unlink()
+            except OSError:
+                pass
+
+
 def main_wrapper(fn: Callable[[], int]) -> None:
     try:
         rc = fn()
